@@ -4,11 +4,22 @@ use mqtt_proto::{v5::ErrorV5, Error, Protocol};
 use std::io;
 
 pub fn hex(bs: &[u8]) -> String {
-    let mut s = String::with_capacity(bs.len() * 2);
-    for b in bs {
-        s.push_str(&format!("{:02x}", b));
+    if bs.len() > (16 << 20) {
+        // no op line carries 16 MiB, so no correct decoder can return this much: print a digest instead
+        // of half a gigabyte of hex (the model will disagree with this line, as it should)
+        let mut h: u64 = 0xcbf29ce484222325;
+        for b in bs {
+            h = (h ^ (*b as u64)).wrapping_mul(0x100000001b3);
+        }
+        return format!("huge[len={},fnv={}]", bs.len(), h);
     }
-    s
+    const D: &[u8; 16] = b"0123456789abcdef";
+    let mut v = Vec::with_capacity(bs.len() * 2);
+    for b in bs {
+        v.push(D[(b >> 4) as usize]);
+        v.push(D[(b & 15) as usize]);
+    }
+    String::from_utf8(v).unwrap()
 }
 
 pub fn hex_or_dash(bs: &[u8]) -> String {
